@@ -342,7 +342,7 @@ func (t *terminal) handleCmdCSI(r escapeReader) bool {
 				paramCount = 1
 				params = paramStore[:paramCount]
 			}
-			t.screen().moveCursor(0, params[0], false, true)
+			t.screen().moveCursor(0, params[0], false, false)
 		case 'C': // Move cursor forward
 			if paramCount == 0 {
 				paramStore[0] = 1
